@@ -137,3 +137,79 @@ pub fn format_event(case: &Value) -> Value {
     ev["a"] = model_side(src);
     ev
 }
+
+/// Linear model with numbers as sign + bit pattern (exact identity).
+pub fn lm_bits(lm: &rooc::LinearModel) -> Value {
+    use crate::lp::numrec;
+    let vars: Vec<Value> = lm
+        .variables()
+        .iter()
+        .map(|n| match lm.domain().get(n).map(|d| *d.get_type()) {
+            Some(rooc::VariableType::Boolean) => json!({"name":n,"kind":"bool","lo":numrec(0.0),"hi":numrec(1.0)}),
+            Some(rooc::VariableType::IntegerRange(a, b)) => json!({"name":n,"kind":"int","lo":numrec(a as f64),"hi":numrec(b as f64)}),
+            Some(rooc::VariableType::Real(a, b)) => json!({"name":n,"kind":"real","lo":numrec(a),"hi":numrec(b)}),
+            Some(rooc::VariableType::NonNegativeReal(a, b)) => json!({"name":n,"kind":"nnreal","lo":numrec(a),"hi":numrec(b)}),
+            None => json!({"name":n,"kind":"missing","lo":numrec(0.0),"hi":numrec(0.0)}),
+        })
+        .collect();
+    json!({
+        "vars": vars,
+        "rows": lm.constraints().iter().map(|c| json!({
+            "a": c.coefficients().iter().map(|x| numrec(*x)).collect::<Vec<_>>(),
+            "b": numrec(c.rhs()), "cmp": cmp_name(c.constraint_type()), "name": c.name()})).collect::<Vec<_>>(),
+        "obj": lm.objective().iter().map(|x| numrec(*x)).collect::<Vec<_>>(),
+        "off": numrec(lm.objective_offset()),
+        "sense": sense_name(lm.optimization_type()),
+    })
+}
+
+/// Compile a text all the way: parse, type check, transform, linearize.
+fn compile_text(src: &str) -> Value {
+    let res = catch_unwind(AssertUnwindSafe(|| {
+        let p = RoocParser::new(src.to_string());
+        if let Err(e) = p.parse() {
+            return json!({"out":"parse_error","why":e.to_string()});
+        }
+        if let Err(e) = p.type_check(&vec![], &IndexMap::new()) {
+            return json!({"out":"type_error","why":e.to_string()});
+        }
+        let model = match p.parse_and_transform(vec![], &IndexMap::new()) {
+            Ok(m) => m,
+            Err(e) => return json!({"out":"transform_error","why":e.to_string()}),
+        };
+        match rooc::Linearizer::linearize(model) {
+            Ok(lm) => json!({"out":"ok","lm":lm_bits(&lm),"text":lm.to_string()}),
+            Err(e) => json!({"out":"linearize_error","why":e.to_string()}),
+        }
+    }));
+    res.unwrap_or_else(|p| json!({"out":"panic","why":panic_msg(p)}))
+}
+
+/// C12: render a compiled Model and its LinearModel and compile the renderings again.
+pub fn render_event(case: &Value) -> Value {
+    let id = case["id"].as_str().unwrap_or("?");
+    let model = if let Some(t) = case.get("text").and_then(|t| t.as_str()) {
+        match catch_unwind(AssertUnwindSafe(|| RoocParser::new(t.to_string()).parse_and_transform(vec![], &IndexMap::new()))) {
+            Ok(Ok(m)) => m,
+            _ => return json!({"id":id,"out":"nosource"}),
+        }
+    } else {
+        model_from_case(case)
+    };
+    let modeltext = model.to_string();
+    let lm = match catch_unwind(AssertUnwindSafe(|| rooc::Linearizer::linearize(model))) {
+        Ok(Ok(lm)) => lm,
+        Ok(Err(_)) => return json!({"id":id,"out":"notcompiled","modeltext":modeltext}),
+        Err(_) => return json!({"id":id,"out":"panic","modeltext":modeltext}),
+    };
+    let lmtext = lm.to_string();
+    json!({
+        "id": id,
+        "out": "ok",
+        "modeltext": modeltext,
+        "lmtext": lmtext,
+        "lm": lm_bits(&lm),
+        "from_model": compile_text(&modeltext),
+        "from_lm": compile_text(&lmtext),
+    })
+}
